@@ -358,6 +358,11 @@ func (ex *Exec) finishRoot(fr *Frame, pre *State) {
 	if ct == nil {
 		return
 	}
+	// verdicts of the primitives called by this function
+	vars["sig_ok"], vars["aead_ok"], vars["ctcmp_ok"] = boolVal("false"), boolVal("false"), boolVal("false")
+	for k, v := range ex.ghostVars {
+		vars[k] = v
+	}
 	// ghost updates
 	for _, gu := range ct.Updates {
 		ex.applyGhostUpdate(fr, st, pre, vars, gu)
@@ -798,6 +803,10 @@ func (ex *Exec) applyContract(fr *Frame, st *State, fn *ssa.Function, ct *FuncCo
 			vars[p.Name()] = v
 		}
 	}
+	// verdicts of primitives inside the callee are not visible to the caller
+	for _, g := range []string{"sig_ok", "aead_ok", "ctcmp_ok"} {
+		vars[g] = boolVal(ex.fresh("callee."+g, sBool))
+	}
 	calleeFr := &Frame{fn: fn, vals: map[ssa.Value]Val{}, regs: map[*ssa.Alloc]bool{}, parent: fr, path: fr.path}
 	site := "@call:" + key
 	for _, c := range ct.Requires {
@@ -960,7 +969,7 @@ func (ex *Exec) checkCallSites(fr *Frame, st *State, callee string, args []Val, 
 		for i, a := range args {
 			vars[fmt.Sprintf("arg%d", i)] = a
 		}
-		vars["sig_ok"], vars["aead_ok"] = boolVal("false"), boolVal("false")
+		vars["sig_ok"], vars["aead_ok"], vars["ctcmp_ok"] = boolVal("false"), boolVal("false"), boolVal("false")
 		for k, v := range ex.ghostVars {
 			vars[k] = v
 		}
